@@ -104,7 +104,7 @@ def eval_paths(recs, seed, strict=True):
             # numeric counterpart of the structural lemma CommutesAlongPath (evaluator sanity)
             if y != dict(x, k=None):
                 raise MachineryError("evaluator: public chain differs from neutered private chain at %r" % (p,))
-        out[p] = {"prv": x, "pub": y, "ser": {w: ev.B(r["ser"][w]) for w in ("prv", "pub")}}
+        out[p] = {"prv": x, "pub": y, "ser": {w: ev.B(r["ser"][w]) for w in ("prv", "pub")}, "number": r.get("number")}
     return out
 
 
@@ -249,6 +249,28 @@ def _paths_worker(arg):
                 c = parent.subkey(i=v, is_hardened=h, as_private=ap)
                 _cmp(fails, "paths|subkey(as_private=%s)" % ap, cls, e["prv"] if ap else _neuter(e["prv"]), c, det)
                 n += 1
+            # the last index spelt as the BIP's single child number (big-endian value of ser32): plain integer and decimal
+            # path component.  Outcomes the spec allows: rec["number"]["may"] ("refused" only for hardened children).
+            num = tree[p]["number"]
+            i_num = int.from_bytes(bytes(num["be"]), "big")
+            pstr = D.path_str(p[:-1])
+            for who, par, want in (("private", parent, e["prv"]), ("public", parent.public_copy(), None if h else _neuter(e["prv"]))):
+                for how, f in (("subkey(i)", lambda: par.subkey(i=i_num)),
+                               ("subkey_for_path", lambda: par.subkey_for_path(str(i_num))),
+                               ("subkey_for_path from master", lambda: (M if who == "private" else MP).subkey_for_path((pstr + "/" if pstr else "") + str(i_num)))):
+                    if how.endswith("master") and who == "public" and any(hh for hh, _ in p[:-1]):
+                        continue
+                    rf, r = _refused(f)
+                    n += 1
+                    if rf:
+                        if "refused" not in num["may"]:
+                            fails.append(("C09|paths|child number spelling|%s parent|%s|%s|want=key|got=refused" % (who, how, _vclass(p[-1])),
+                                          "child number %d (%s) was refused" % (i_num, D.path_str(p[-1:])), det))
+                    elif want is None:
+                        fails.append(("C09|paths|child number spelling|%s parent|%s|%s|want=refused|got=key" % (who, how, _vclass(p[-1])),
+                                      "child number %d is a hardened child; a public-only parent answered it" % i_num, det))
+                    else:
+                        _cmp(fails, "paths|child number spelling|%s parent|%s" % (who, how), _vclass(p[-1]), want, r, det)
         # path strings, every hardening mark, with and without .pub; on the long-lived and on a fresh master
         mark = marks[rnd.randrange(3)]
         ps = D.path_str(p, mark)
@@ -303,9 +325,74 @@ def replay_paths(ctx, cfg, seeds, nets):
     return recs
 
 
+# ------------------------------------------------------------------ 3a'. presentations of the master seed (MC_BIP32Seed)
+def _seed_entry(net, name, seed, text):
+    if name == "keys.bip32_seed(bytes)":
+        return net.keys.bip32_seed(seed)
+    if name == "parse":
+        return net.parse(text)
+    return getattr(net.parse, name[len("parse."):])(text)
+
+
+def replay_seed_texts(ctx, nets):
+    from pycoin.networks.registry import network_for_netcode
+    r = ctx.tlc("MC_BIP32Seed", "MC_BIP32Seed", workers=2, timeout=600)
+    recs = sorted((x for x in r.records if isinstance(x, dict) and x.get("k") == "seed"), key=lambda x: (x["n"], x["head"]))
+    if len(recs) < 30:
+        raise MachineryError("MC_BIP32Seed printed %d cases" % len(recs))
+    rnd = random.Random(ctx.seed * 6007 + 5)
+    # R2: for the BIP's first vector the text the spec spells is H: + the hex string of the repository's test file
+    v1 = VEC_SEEDS[0]
+    src = open(os.path.join(REPO, "tests", "btc", "bip32_test.py")).read()
+    hit = [x for x in recs if bytes(x["head"]) == v1[:len(x["head"])] and x["head"] and x["n"] == len(v1) - len(x["head"])]
+    if not hit:
+        raise MachineryError("no seed case has the shape of the first official vector")
+    tot = 0
+    fails = []
+    for x in recs:
+        tails = [bytes(rnd.randrange(256) for _ in range(x["n"])) for _ in range(2 if ctx.quick else 6)]
+        if x in hit:
+            tails.append(v1[len(x["head"]):])
+        for ti, tail in enumerate(tails):
+            ev = D.Evaluator({"tail": tail})
+            seed = ev.B(x["seed"])
+            text = "".join(x["text"]["lit"]) + ev.B(x["text"]["hexof"]).hex()
+            want = ev.node(x["master"])
+            if seed == v1 and (text[2:] not in src or not text.startswith("H:")):
+                raise MachineryError("the spec's text of the first official seed is not the hex string of the BIP vector")
+            net = network_for_netcode(nets[(ti + len(x["head"])) % len(nets)])
+            for name in x["entries"]:
+                det = {"entry": name, "net": net.symbol, "seed": seed.hex(), "text": text}
+                tot += 1
+                ctx.case("seed|%s|%s" % (name, x["cls"]), 0)
+                try:
+                    node = _seed_entry(net, name, seed, text)
+                except Exception as e:  # noqa
+                    node = None
+                    det["raised"] = repr(e)
+                if node is None:
+                    fails.append(("C09|seed|%s|first digit: %s|got=no key" % (name, x["cls"]), "%s gives no key for the seed %s" % (name, text), det))
+                    continue
+                if not _cmp(fails, "seed|%s" % name, "first digit: %s" % x["cls"], want, node, det):
+                    continue
+                # and a child below it: the whole tree hangs on the master
+                c1, c2 = node.subkey_for_path("0H/1"), net.keys.bip32_seed(seed).subkey_for_path("0H/1")
+                if D.project(c1) != D.project(c2):
+                    fails.append(("C09|seed|%s|first digit: %s|child differs" % (name, x["cls"]), "children of the same master differ", det))
+    seen = {}
+    for f in fails:
+        seen.setdefault(f[0], f)
+    for key, what, det in seen.values():
+        ctx.fail(key, what, det)
+    ctx.case(None, tot)
+    ctx.replayed += tot
+    ctx.action("replay.seed_presentations", tot)
+    ctx.log("seed presentations: %d (head, length) classes, %d (seed, entry point) cases on pycoin" % (len(recs), tot))
+
+
 # ------------------------------------------------------------------ 3b. sessions (memoising objects, copies, path strings)
 def _sess_eval(rec, seed):
-    ev = D.Evaluator({"seed": seed})
+    ev = D.Evaluator({"seed": seed, "chain2": hashlib.sha256(b"vf/C09/chain2" + seed).digest()})
     fields = {}
     for o, d in enumerate(rec["defs"], 1):
         fields[o] = ev.node(d["node"])
@@ -325,12 +412,20 @@ def _sess_class(ops, i):
     return "derive|want=%s|hard=%s|%s" % (op["want"], op["ix"]["h"], rep)
 
 
-def _run_session(rec, seed, net, fails, corrupt=None):
+def _run_session(rec, seed, net, fails, corrupt=None, net2=None):
     ops, defs = rec["ops"], rec["defs"]
     fields = _sess_eval(rec, seed)
     if corrupt:
         corrupt(fields)
     py = {1: net.keys.bip32_seed(seed)}
+    if len(defs) > 1 and defs[1]["how"][0] == "rechain":
+        # the second root: an extended public key READ from its text (fields from the spec's node), possibly on another network
+        f2, n2 = fields[2], net2 or net
+        blob = (_G["versions"][n2.symbol][1] + bytes([f2["depth"]]) + f2["pfp"] + D.cn_int(f2["cn"]).to_bytes(4, "big")
+                + f2["chain"] + f2["K"])
+        py[2] = n2.parse.bip32_pub(D.b58check(blob))
+        if py[2] is None or f2["k"] is not None:
+            raise MachineryError("could not read the second root of a session from its text")
 
     def resolve(o):
         if o not in py:
@@ -376,11 +471,12 @@ def _sess_worker(arg):
     recs, seeds, netsym = arg
     from pycoin.networks.registry import network_for_netcode
     net = network_for_netcode(netsym)
+    others = [network_for_netcode(s) for s in ("BTC", "XTN", "LTC")]
     fails = []
     n = 0
-    for rec in recs:
+    for ri, rec in enumerate(recs):
         for seed in seeds:
-            n += _run_session(rec, seed, net, fails)
+            n += _run_session(rec, seed, net, fails, net2=others[ri % 3])
     # keep one failure per key in the chunk
     seen = {}
     for f in fails:
@@ -1376,7 +1472,7 @@ def run(ctx):
     # 1. lemmas that have no replay attached (the other lemma sets are checked in the replay runs below)
     if _only(ctx, "model"):
         ctx.tlc("MC_BIP32Session", "MC_BIP32Session_q" if q else "MC_BIP32Session_t", workers=8, timeout=2400)
-        for mode in ("noHard", "noWant"):
+        for mode in ("noHard", "noWant", "noChain"):
             r = ctx.tlc("MC_BIP32Session", "MC_BIP32Session_" + mode, workers=4, expect_ok=False, count=False, timeout=600)
             ctx.selftest("model_rejects_memo_keyed_" + mode, (not r.ok) and r.violated == "ResultIsPure")
     seeds = make_seeds(ctx, 4 if q else 14)
@@ -1385,8 +1481,10 @@ def run(ctx):
     # 3. spec -> code
     if _only(ctx, "paths") or _only(ctx, "text") or _only(ctx, "ranges"):
         replay_paths(ctx, "MC_BIP32_rpq" if q else "MC_BIP32_rpt", seeds, ["BTC", "XTN", "LTC", "DOGE"])
+    if _only(ctx, "seedtext"):
+        replay_seed_texts(ctx, ["BTC", "XTN", "LTC", "DOGE"])
     if _only(ctx, "sessions"):
-        for cfg in (["MC_BIP32Session_rpq"] if q else ["MC_BIP32Session_rpq", "MC_BIP32Session_rpt1", "MC_BIP32Session_rpt2"]):
+        for cfg in (["MC_BIP32Session_rpq", "MC_BIP32Session_rp2"] if q else ["MC_BIP32Session_rpq", "MC_BIP32Session_rpt1", "MC_BIP32Session_rpt2", "MC_BIP32Session_rp2"]):
             first_session = replay_sessions(ctx, cfg, seeds[1:2] if q else seeds[1:3]) or first_session
     if _only(ctx, "ranges"):
         _G["tree_for_ranges"] = eval_paths([x for x in _G["path_recs"] if x["k"] == "root" or len(x["path"]) <= 2], seeds[0])
